@@ -473,13 +473,12 @@ fn bound_of(prec: &str) -> f64 {
     }
 }
 
-/// largest coefficient magnitude with max^2 * max(la, lb) <= bound (and inside i32).
-/// The property's literal envelope is max^2 * min(la, lb) <= bound; for very unbalanced lengths the real
-/// code is NOT exact there (known finding F10: pure rounding, see docs/notes/C04.md), so the bulk of the
-/// cases is generated inside the sub-envelope with max(la, lb) — which is what precision.rs tabulates
-/// (both operands of length L) — and the stream `unbalanced-at-min-bound` carries the witnesses.
+/// largest coefficient magnitude of the property's literal envelope max^2 * min(la, lb) <= bound (and inside i32).
+/// Since the repair of finding F11 (`multiply_into` multiplies a much longer operand block by block, blocks of the
+/// shorter operand's length) the real code is exact on the WHOLE literal envelope, so every stream is generated AT it,
+/// however unbalanced the lengths are (1 x 4096, 2 x 8192, 7 x 1000, ...).
 fn env_max(prec: &str, la: usize, lb: usize) -> i64 {
-    let mn = la.max(lb).max(1) as f64;
+    let mn = la.min(lb).max(1) as f64;
     let mut m = (bound_of(prec) / mn).sqrt().floor() as i64;
     while (m + 1) * (m + 1) * (mn as i64) <= bound_of(prec) as i64 {
         m += 1;
@@ -490,11 +489,45 @@ fn env_max(prec: &str, la: usize, lb: usize) -> i64 {
     m.min(i32::MAX as i64)
 }
 
+/// Destination lengths that matter for the block loop of `multiply_into` (`short` = the shorter operand = block size):
+/// empty, shorter than one block, exactly at / one before / one after a block boundary (first, middle, last block),
+/// in the middle of a block, around the full product length.
+fn block_dests(la: usize, lb: usize) -> Vec<usize> {
+    let s = la.min(lb);
+    let lg = la.max(lb);
+    let l = la + lb - 1;
+    let nb = (lg + s - 1) / s;
+    let mut v = vec![
+        0,
+        1,
+        s.saturating_sub(1),
+        s,
+        s + 1,
+        2 * s - 1,
+        2 * s,
+        2 * s + 1,
+        (nb / 2) * s,
+        (nb / 2) * s + s / 2 + 1,
+        ((nb - 1) * s).saturating_sub(1),
+        (nb - 1) * s,
+        (nb - 1) * s + 1,
+        l - 1,
+        l,
+        l + 3,
+    ];
+    v.retain(|&x| x <= l + 3);
+    v.sort();
+    v.dedup();
+    v
+}
+
 struct Gen<'a> {
     rng: SplitMix64,
     emit: &'a mut dyn FnMut(String),
     stats: &'a mut Stats,
     cap_hist: usize, // largest table size a history op may request
+    /// destination length of the next generated `mi` (stream `unbalanced`: lengths relative to block boundaries)
+    dest_override: Option<usize>,
 }
 
 impl<'a> Gen<'a> {
@@ -607,7 +640,21 @@ impl<'a> Gen<'a> {
             "mi" => {
                 // destination pre-filled with non-zero data; shorter / equal / longer than |a|+|b|-1,
                 // also longer than the transform size n and than 2n
-                let rl = self.dest_len(l, n);
+                // for unbalanced operands (block loop of multiply_into) half of the destinations end at / next to /
+                // inside a block boundary
+                let unbalanced = a.len().max(b.len()) > 2 * a.len().min(b.len());
+                let rl = match self.dest_override.take() {
+                    Some(rl) => {
+                        self.stats.bump("dest:block-relative");
+                        rl
+                    }
+                    None if unbalanced && self.rng.chance(1, 2) => {
+                        self.stats.bump("dest:block-relative");
+                        let ds = block_dests(a.len(), b.len());
+                        *self.rng.pick(&ds)
+                    }
+                    None => self.dest_len(l, n),
+                };
                 let res = self.dest(rl);
                 (format!("mi {} {} {}", join(a), join(b), join(&res)), n)
             }
@@ -641,6 +688,20 @@ impl<'a> Gen<'a> {
         self.stats.bump(&format!("prec:{}", prec));
         self.stats.bump(&format!("pattern:{}", pat_a));
         self.stats.bump(&format!("size:{}:2^{}", prec, n.trailing_zeros()));
+        if opk == "m" || opk == "mi" {
+            // which path of multiply_into: single transform, or the block loop (ratio of the lengths, ragged last block,
+            // a ragged block so short that the recursive call splits again)
+            let (sh, lg) = (la.min(lb), la.max(lb));
+            if lg > 2 * sh {
+                let ratio = lg / sh;
+                self.stats.bump(if ratio < 8 { "blocks:ratio<8" } else if ratio < 1000 { "blocks:ratio<1000" } else { "blocks:ratio>=1000" });
+                self.stats.bump(if la <= lb { "blocks:short-first" } else { "blocks:long-first" });
+                let r = lg % sh;
+                self.stats.bump(if r == 0 { "blocks:last-full" } else if sh > 2 * r { "blocks:last-ragged-recursive" } else { "blocks:last-ragged" });
+            } else {
+                self.stats.bump("blocks:none(single-transform)");
+            }
+        }
         // how the object is obtained: mostly new(), otherwise default() / clone of a fresh one / clone after the history
         let ctor = match self.rng.below(8) {
             0 => " default",
@@ -659,7 +720,7 @@ const OPS: [&str; 5] = ["m", "mi", "fm", "fmx", "fmi"];
 fn gen(args: &Args, emit: &mut dyn FnMut(String), stats: &mut Stats) {
     let thorough = args.tier == "thorough";
     let kmax: u32 = if thorough { 17 } else { 12 };
-    let mut g = Gen { rng: SplitMix64::new(args.seed ^ 0xC04), emit, stats, cap_hist: 1usize << (kmax + 1) };
+    let mut g = Gen { rng: SplitMix64::new(args.seed ^ 0xC04), emit, stats, cap_hist: 1usize << (kmax + 1), dest_override: None };
     let mut ctr = 0usize;
     let dense_cap: u64 = if thorough { 1 << 21 } else { 1 << 19 };
 
@@ -912,58 +973,42 @@ fn gen(args: &Args, emit: &mut dyn FnMut(String), stats: &mut Stats) {
         (g.emit)(format!("fft {} ; {}", prec, ops.join(" ; ")));
     }
 
-    // (vii) LAST (so that these cannot crowd real violations out of the report): the region BETWEEN the two
-    //       envelopes, max^2*min(len) <= bound < max^2*max(len): inside the property's literal envelope, where
-    //       multiply / multiply_into are known NOT to be exact for very unbalanced operands (known finding F10,
-    //       predicate `c04_unbalanced_between_envelopes` in checks/C04.py). Sampled on every run, fresh object,
-    //       one call per case; a failure here is the known finding, anywhere else it is a violation.
+    // (vii) very unbalanced operands AT the literal envelope max^2*min(len) = bound (the region of the former finding
+    //       F11, repaired by the block loop of multiply_into): 1 x 4096, 2 x 8192, 7 x 1000, ragged last blocks, ragged
+    //       blocks short enough for the recursive call to split again (7 x 1003 -> 2 against 7 -> 1 against 2; 16 x 645),
+    //       lengths right at the switch `long > 2 * short`, both operand orders, multiply and multiply_into with
+    //       destinations ending before / at / after / inside block boundaries, every history kind.
     {
-        let ramp = |l: usize, m: i64| -> Vec<i32> { (0..l as i64).map(|i| ((2 * i + 1 - l as i64) * m / l as i64) as i32).collect() };
-        let mut shapes: Vec<(usize, usize)> = vec![];
-        let longs: &[usize] = if thorough { &[4096, 8192, 16384, 65536] } else { &[4096, 8192] };
-        for &la in &[1usize, 2, 3, 4, 16] {
-            for &lb in longs {
-                shapes.push((la, lb));
-            }
+        let mut shapes: Vec<(usize, usize)> = vec![
+            (1, 2), (1, 3), (2, 4), (2, 5), (3, 6), (3, 7), (3, 8), (3, 10), (5, 11), (5, 13), (7, 15), (7, 50),
+            (33, 66), (33, 67), (33, 100), (100, 200), (100, 201), (100, 299), (16, 645), (7, 1000), (7, 1003),
+            (64, 4096), (63, 4095), (65, 4097), (1000, 2001), (255, 1024), (1, 4096), (2, 8192), (3, 4097), (4, 8190), (16, 8192),
+        ];
+        if thorough {
+            shapes.extend_from_slice(&[(1, 65536), (2, 65535), (3, 65536), (4, 16384), (16, 65536), (255, 32768), (1000, 20000), (31, 100000)]);
         }
-        // mildly unbalanced pairs (ratio 1:2 .. 1:8)
-        for &(la, lb) in &[(20usize, 40usize), (7, 50), (100, 300), (33, 264), (512, 2048), (1000, 2000), (255, 1024), (3, 24)] {
-            shapes.push((la, lb));
-        }
+        let pats = ["ramp", "allmax", "mixed", "alt", "allneg", "pos"];
         let mut idx = 0usize;
         for prec in ["f64", "f32"] {
-            let bound = bound_of(prec) as i64;
-            for &(la, lb) in &shapes {
-                // largest magnitude of the literal envelope
-                let mut m = ((bound / la as i64) as f64).sqrt() as i64;
-                while (m + 1) * (m + 1) * la as i64 <= bound {
-                    m += 1;
-                }
-                while m * m * la as i64 > bound {
-                    m -= 1;
-                }
-                if m == 0 || m * m * (lb as i64) <= bound {
-                    continue;
-                }
-                let pats: &[&str] = if lb >= 4096 { &["ramp", "allmax", "mixed", "alt"] } else { &["ramp", "mixed"] };
-                for &pat in pats {
+            for &(la0, lb0) in &shapes {
+                let ds = block_dests(la0, lb0);
+                let nvar = if thorough { ds.len() + 2 } else { 5 };
+                for v in 0..nvar {
                     idx += 1;
-                    if !thorough && lb >= 4096 && la > 4 && pat != "ramp" {
-                        continue;
-                    }
-                    let b = if pat == "ramp" { ramp(lb, m) } else { coeffs(&mut g.rng, lb, m, pat) };
-                    let a = if la == 1 { vec![m as i32] } else { coeffs(&mut g.rng, la, m, if idx % 2 == 0 { "allmax" } else { "alt" }) };
-                    let (a, b) = if idx % 4 == 3 { (b, a) } else { (a, b) };
-                    let line = if idx % 3 == 2 {
-                        let l = a.len() + b.len() - 1;
-                        let res = g.dest(l.min(64) + (idx % 5));
-                        format!("fft {} ; mi {} {} {}", prec, join(&a), join(&b), join(&res))
+                    // both operand orders
+                    let (la, lb) = if idx % 2 == 0 { (la0, lb0) } else { (lb0, la0) };
+                    let pl = pats[idx % pats.len()]; // pattern of the long operand
+                    let ps = if la0 == 1 || idx % 3 == 0 { "allmax" } else { PATTERNS[idx % PATTERNS.len()] };
+                    let (pa, pb) = if la <= lb { (ps, pl) } else { (pl, ps) };
+                    let hist = HIST[idx % HIST.len()];
+                    if v < 2 {
+                        g.mul_case(prec, la, lb, pa, pb, "m", hist, "unbalanced");
                     } else {
-                        format!("fft {} ; m {} {}", prec, join(&a), join(&b))
-                    };
-                    g.stats.bump("stream:between-envelopes");
-                    g.stats.bump(&format!("prec:{}", prec));
-                    (g.emit)(line);
+                        let d = if thorough { ds[v - 2] } else { ds[(idx * 7 + v) % ds.len()] };
+                        g.dest_override = Some(d);
+                        g.mul_case(prec, la, lb, pa, pb, "mi", hist, "unbalanced");
+                        g.dest_override = None;
+                    }
                 }
             }
         }
